@@ -80,20 +80,20 @@ CLAIMED = {
          "for every history window = credit - sent and no DATA beyond the credit granted by then (stream and connection), stalled responses "
          "resume, uploads get their credit back; tied by differential correspondence on credit histories against h2.c running in-process",
     note="trusted: Coq kernel, c2v.py, extraction, harness glue (in-process connection, stub response producer), python RFC monitor; regime of the "
-         "correspondence: GET /b<N> requests, network drains every round, <= 8 streams; padded/streamed uploads are judged by the monitor only; "
+         "correspondence: GET /b<N> requests, client RST_STREAM (fewer than the rapid-reset guard counts), network drains every round, <= 8 streams; padded/streamed uploads are judged by the monitor only; "
          "socket-level scheduling (who gets to write when) is abstracted to rounds",
     technique="Coq invariant proof over executable model + differential correspondence (extracted OCaml vs in-process h2.c)",
     design="5/C06"),
  "C05": dict(
     text="Coq theorem every_emitted_frame_is_legal (H2/H2Trace.v): for every history of client events (SETTINGS, SETTINGS ACK, HEADERS of a complete "
-         "GET, WINDOW_UPDATE, PING; any number, any order, any values) every frame the executable HTTP/2 model emits is accepted by an RFC 9113 wire "
+         "GET, WINDOW_UPDATE, PING, RST_STREAM; any number, any order, any values) every frame the executable HTTP/2 model emits is accepted by an RFC 9113 wire "
          "tracker written in Gallina (H2Legal: HEADERS before DATA, END_STREAM once, nothing after it, payload <= peer max frame size, SETTINGS/PING "
          "acknowledged exactly when owed, nothing after an error GOAWAY, RST_STREAM/GOAWAY only naming opened streams), proved by a simulation "
          "invariant between the model's and the tracker's state; nothing_is_owed_at_the_end for live connections.  The model is tied to h2.c by "
          "running both on the same frame sequences: the model's trace must equal the implementation's frame for frame (trace correspondence, "
          "2500+ histories per run) and the extracted tracker also judges every frame h2.c emits for exhaustive (alphabet of 53 valid/invalid frames, "
          "length <= 2, 3 in thorough) and random client frame sequences incl. every piece size 1..24",
-    note="outside the model's regime (uploads, invalid frames, CONTINUATION, RST_STREAM from the client, header block lengths, the server preface) the tracker "
+    note="outside the model's regime (uploads, invalid frames, CONTINUATION, more than 15 client resets per connection - the rapid-reset guard -, header block lengths, the server preface) the tracker "
          "is a monitor over the implementation's frames, not a theorem; trusted: Coq kernel, extraction, harness glue, tracker's reading of RFC 9113; "
          "TLS/ALPN paths not built",
     technique="Coq proof (simulation invariant: every model trace is accepted by the RFC 9113 tracker) + trace correspondence model vs h2.c + the extracted tracker as monitor over exhaustive/random frame sequences",
